@@ -2,6 +2,7 @@
 """(re)writes /verif/seeded/<seed>/meta.json from notes.md, verify.json and eval.log"""
 import json, os, re, sys
 root = "/verif/seeded"
+rows = []
 for seed in sorted(os.listdir(root)):
     d = os.path.join(root, seed)
     if not os.path.isdir(d) or not os.path.exists(d + "/patch.diff"):
@@ -14,7 +15,7 @@ for seed in sorted(os.listdir(root)):
     for l in evals:
         m = re.match(r"\S+ tier=(\S+) (C\d+): (.*)", l)
         if m: last[m.group(2)] = ("detected" if "VIOLATION" in m.group(3) else "missed", m.group(1), m.group(3).strip())
-    meta = {"seed": seed, "breaks_property": seed[:3], "touches": files,
+    meta = {"seed": seed, "breaks_property": seed[:3] if not seed.startswith("R") else (open(d + "/props").read().split() if os.path.exists(d + "/props") else []), "touches": files,
             "origin": "independent sub-agent given only the property text and a scratch worktree" if not seed.startswith("R") else "reverted fix commit",
             "needs_to_manifest": (re.search(r"(?is)(needs|manifest|trigger)[^\n]*\n(.{0,600})", notes) or [None, None, ""])[2].strip()[:600] if notes else "",
             "summary": notes.strip().split("\n\n")[0][:800],
@@ -22,3 +23,19 @@ for seed in sorted(os.listdir(root)):
             "checks_run": evals, "latest_verdict_per_check": last}
     json.dump(meta, open(d + "/meta.json", "w"), indent=1)
     print(seed, {k: v[0] for k, v in last.items()})
+    rows.append((seed, files, meta["needs_to_manifest"], last, notes))
+
+def short(t, n):
+    t = " ".join(t.replace("|", "/").split())
+    return t if len(t) <= n else t[: n - 1] + "…"
+with open(root + "/TABLE.md", "w") as out:
+    out.write("| seed | touches | what it is / what it needs | verdict per check (quick tier) |\n|---|---|---|---|\n")
+    for seed, files, needs, last, notes in rows:
+        title = notes.strip().split("\n")[0].lstrip("# ").strip()
+        verdicts = []
+        for chk, (v, tier, line) in sorted(last.items()):
+            if v == "detected":
+                verdicts.append(f"{chk}: " + ("tie" if "no-failing-input-found" in line else "concrete"))
+            else:
+                verdicts.append(f"{chk}: missed")
+        out.write(f"| {seed} | {', '.join(f.replace('src/', '') for f in files)} | {short(title, 150)} | {'; '.join(verdicts)} |\n")
